@@ -119,8 +119,7 @@ def check(run):
            "" if ok and guard else "events must be appended (right end) to self.events only when the data buffer is non-empty")
     # per-event buffers are cleared at the end of every block (blank line), dispatched or not: the name, data and data-line
     # buffers are re-bound to empty values as direct statements of the blank-line block, before its `continue`
-    blank = [n for n in walk_local(pe.node) if isinstance(n, ast.If) and any(c is app[0] for c in ast.walk(n))
-             and any(isinstance(b, ast.Continue) for b in n.body)] if app else []
+    blank = [n for n in walk_local(pe.node) if isinstance(n, ast.If) and any(c is app[0] for st in n.body for c in ast.walk(st))] if app else []
     resets = set()
     if blank:
         outer = sorted(blank, key=lambda n: n.lineno)[0]
